@@ -1,8 +1,8 @@
 SPECIFICATION Spec
 CONSTANT Cfg <- MCCfgSmall
 CONSTANT Movable <- MovFirst
-CONSTANT Limits <- LimTwo
-CONSTANT PelletInit <- PelSmall5
+CONSTANT Limits <- LimAll
+CONSTANT PelletInit <- PelAll
 CONSTRAINT Bounded
 INVARIANT Protocol
 INVARIANT MaskSound
